@@ -143,7 +143,7 @@ CLAIMS["C10"] = dict(
     technique="Lean 4 invariant proofs over LTS models + trace validation against the real code")
 
 CLAIMS["C11"] = dict(
-    text="26 Lean theorems over all event lists of LTS models of Event and of Condition (the latter embeds the "
+    text="27 Lean theorems over all event lists of LTS models of Event and of Condition (the latter embeds the "
          "C09 Lock model): Event.wait returns only in a state with the flag set, set() resolves every "
          "waiter, the flag is monotone, released waiters can always be resumed; Condition: notify(n) sets "
          "exactly the events of the first min(n,|waiters|) waiters, a waiter's event is set only by a "
@@ -151,10 +151,10 @@ CLAIMS["C11"] = dict(
          "returns normally only to a notified task that owns the lock again, notification accounting "
          "(issued = consumed directly + consumed after pass-on + dropped on an empty queue + pending), no "
          "ghost waiters, refusals (RuntimeError, state unchanged) exactly for non-holders. History level "
-         "(Props/C11order.lean, 7 theorems): for every event list the events set so far (by notify, notify_all or a "
+         "(Props/C11order.lean, 8 theorems): for every event list the events set so far (by notify, notify_all or a "
          "passed-on notification), followed by the events still queued, are a subsequence of the order in which the "
          "wait() calls queued them (C11_notify_order_history); one step signals a prefix of the queue; every queued wait "
-         "is accounted for exactly once - event set, left the queue cancelled, or still queued (C11_wait_accounting). Trace validation "
+         "is accounted for exactly once - event set, left the queue cancelled, or still queued (C11_wait_accounting), with exact order when nobody left the queue (C11_order_exact). Trace validation "
          "against the real code incl. both orders of notify/cancel inside one loop cycle, and a queue-automaton "
          "oracle.",
     design="5/C11",
